@@ -50,6 +50,17 @@ Theorem pairing_requests_gated :
   viewer_rank < required_role "pair.claim" true false.
 Proof. exact pairing_is_gated. Qed.
 
+(* config.set: an admin-only setting (auth tokens, control mode, web auth) changes only for the admin role, whatever the key's spelling *)
+Theorem admin_only_config_needs_admin : forall ts dbg c key, admin_effect false ts dbg c key = true ->
+  exists r, role_of ts c = Some r /\ admin_rank <= r.
+Proof. exact admin_config_needs_admin_l. Qed.
+(* ... which fails for a handler that normalises the keys while the gate compares them exactly *)
+Theorem normalizing_config_handler_refuted :
+  normalize " Control.Auth_Token " = "control.auth_token" /\
+  admin_effect true true true (CPair 2) "Control.Auth_Token" = true /\ role_of true (CPair 2) = Some 2 /\ 2 < admin_rank /\
+  admin_effect false true true (CPair 2) "Control.Auth_Token" = false /\ admin_effect false true true CAdmin "control.auth_token" = true.
+Proof. exact normalizing_handler_refuted_l. Qed.
+
 Example c18_nonvacuous :
   handle true true (CPair 2) "io.write" true false = Dispatched /\
   handle true true (CPair 0) "io.write" true false = Forbidden 2 /\
@@ -67,3 +78,5 @@ Print Assumptions role_order_total_monotone.
 Print Assumptions role_table_well_formed.
 Print Assumptions claimed_role_le_engineer.
 Print Assumptions pairing_requests_gated.
+Print Assumptions admin_only_config_needs_admin.
+Print Assumptions normalizing_config_handler_refuted.
